@@ -30,11 +30,13 @@ type tmpl struct {
 	files []fileSpec
 	asked map[string]int64
 	data  map[string][]byte
+	// hand-pointer worlds (part sizes): the hand-written pointers of the history and the refs of the world
+	hand []handPtr
+	refs []string
 }
 
 var (
 	tmplMu   sync.Mutex
-	tmpls    = map[string]*tmpl{}
 	instSeq  int64
 	crashRE  = regexp.MustCompile(`(?m)^(panic: |fatal error: |goroutine \d+ \[|runtime error: |\[signal SIG)`)
 	fileSets = map[string][]fileSpec{}
@@ -61,13 +63,43 @@ func init() {
 	fileSets["names-unicode"] = []fileSpec{{"ü/日本.bin", gitx.Content("bin", 600, 31)}, {"emoji\U0001F600.bin", gitx.Content("bin", 700, 32)}, {"line sep\u007f.bin", gitx.Content("bin", 800, 33)}}
 }
 
+type tmplEntry struct {
+	once sync.Once
+	t    *tmpl
+	err  string
+}
+
+var tmplEntries = map[string]*tmplEntry{}
+
+// getTemplate returns the cached world template of (branch, file set); templates of different keys are built concurrently.
 func getTemplate(branch, set string) *tmpl {
 	key := branch + "\x00" + set
 	tmplMu.Lock()
-	defer tmplMu.Unlock()
-	if t, ok := tmpls[key]; ok {
-		return t
+	e := tmplEntries[key]
+	if e == nil {
+		e = &tmplEntry{}
+		tmplEntries[key] = e
 	}
+	tmplMu.Unlock()
+	e.once.Do(func() {
+		defer func() {
+			if x := recover(); x != nil {
+				e.err = fmt.Sprint(x)
+			}
+		}()
+		if strings.HasPrefix(set, "hp:") {
+			e.t = buildHandPointerTemplate(branch, strings.TrimPrefix(set, "hp:"))
+		} else {
+			e.t = buildTemplate(branch, set)
+		}
+	})
+	if e.t == nil {
+		panic(vx.ToolError{Msg: "cannot build world template " + set + ": " + e.err})
+	}
+	return e.t
+}
+
+func buildTemplate(branch, set string) *tmpl {
 	w, err := gitx.NewWorld(os.Getenv("VERIF_SCRATCH"))
 	if err != nil {
 		panic(vx.ToolError{Msg: "cannot create template world: " + err.Error()})
@@ -107,7 +139,6 @@ func getTemplate(branch, set string) *tmpl {
 			panic(vx.ToolError{Msg: "template: clone unexpectedly has object " + oid})
 		}
 	}
-	tmpls[key] = t
 	return t
 }
 
@@ -116,6 +147,24 @@ type inst struct {
 	local string
 	clone string
 	t     *tmpl
+}
+
+// dirOf maps a step's Repo to a directory: local, clone, or a path below the world root.
+func (in *inst) dirOf(repo string) string {
+	switch repo {
+	case "", "local":
+		return in.local
+	case "clone":
+		return in.clone
+	}
+	return filepath.Join(in.w.Root, repo)
+}
+
+func kindOf(q *req) string {
+	if q.Kind == "other" {
+		return q.Method + "-action"
+	}
+	return q.Kind
 }
 
 func (t *tmpl) instantiate(lfsURL string, extraCfg string) *inst {
@@ -136,33 +185,41 @@ func (t *tmpl) instantiate(lfsURL string, extraCfg string) *inst {
 // one execution
 
 type step struct {
-	Repo string // local | clone
-	Git  bool   // run git (true) or git-lfs (false)
-	Args []string
-	Pre  func(in *inst) // optional preparation (not a command of the tool under test)
+	Repo  string // local | clone | <other directory below the world root>
+	Git   bool   // run git (true) or git-lfs (false)
+	Args  []string
+	Pre   func(in *inst) // optional preparation (not a command of the tool under test)
+	Stdin []byte         // standard input of the command (nil: none)
+	Env   []string       // extra environment KEY=VAL
+	// Dyn computes arguments / standard input from the instantiated world (commit ids, absolute paths); appended to Args.
+	Dyn func(in *inst) (args []string, stdin []byte)
 }
 
 type execSpec struct {
-	Part     string
-	Case     string // human readable id of the case (also the non-trivial key)
-	Branch   string
-	Set      string
-	Cfg      srvCfg
-	GitCfg   string
-	Steps    []step
-	Seed     []string // oids the server holds before the commands run ("*" = all)
-	LockPaths []string
-	LockIDs   []string
-	NeedCreds bool
+	Part       string
+	Case       string // human readable id of the case (also the non-trivial key)
+	PathName   string // part sizes: name of the request path (evidence: which path named which extreme size)
+	Branch     string
+	Set        string
+	Cfg        srvCfg
+	GitCfg     string
+	Steps      []step
+	Seed       []string           // oids the server holds before the commands run ("*" = all)
+	SeedRaw    map[string][]byte  // objects placed in the server store under the given oid whatever their bytes hash to
+	ExtraAsked map[string][]int64 // further (oid, size) pairs the caller asks about in this scenario (object files placed in the store by a Pre step)
+	Refs       []string           // acceptable server ref names (nil: refs/heads/<Branch>)
+	LockPaths  []string
+	LockIDs    []string
+	NeedCreds  bool
 	// hash-algo clause
 	ExpectFailStep int // index of the step that must fail when the server named an unsupported hash algorithm (-1: none)
 }
 
 type execOut struct {
-	res    vx.Result
-	srv    *c18srv
-	reqs   []*req
-	cmds   []map[string]interface{}
+	res  vx.Result
+	srv  *c18srv
+	reqs []*req
+	cmds []map[string]interface{}
 }
 
 var clauseTotals = &clauseCounter{m: map[string]int64{}}
@@ -170,7 +227,29 @@ var clauseTotals = &clauseCounter{m: map[string]int64{}}
 func runSpec(sp *execSpec) vx.Result {
 	t := getTemplate(sp.Branch, sp.Set)
 	t0 := time.Now()
-	facts := &scenarioFacts{Asked: t.asked, Refs: map[string]bool{"refs/heads/" + sp.Branch: true}, LockPaths: map[string]bool{}, LockIDs: map[string]bool{}}
+	facts := &scenarioFacts{Asked: map[string]int64{}, AskedSizes: map[string]map[int64]bool{}, Refs: map[string]bool{"refs/heads/" + sp.Branch: true}, LockPaths: map[string]bool{}, LockIDs: map[string]bool{}}
+	for oid, n := range t.asked {
+		facts.Asked[oid] = n
+		facts.AskedSizes[oid] = map[int64]bool{n: true}
+	}
+	for _, h := range t.hand {
+		facts.AskedSizes[h.Oid][h.Size] = true
+	}
+	for oid, sizes := range sp.ExtraAsked {
+		if _, ok := facts.Asked[oid]; !ok {
+			facts.Asked[oid] = sizes[0]
+			facts.AskedSizes[oid] = map[int64]bool{}
+		}
+		for _, n := range sizes {
+			facts.AskedSizes[oid][n] = true
+		}
+	}
+	if sp.Refs != nil {
+		facts.Refs = map[string]bool{}
+		for _, r := range sp.Refs {
+			facts.Refs[r] = true
+		}
+	}
 	for _, p := range sp.LockPaths {
 		facts.LockPaths[p] = true
 	}
@@ -187,6 +266,13 @@ func runSpec(sp *execSpec) vx.Result {
 		} else {
 			srv.Put(t.data[oid])
 		}
+	}
+	if len(sp.SeedRaw) > 0 {
+		srv.Server.Lock()
+		for oid, d := range sp.SeedRaw {
+			srv.Server.Objects[oid] = d
+		}
+		srv.Server.Unlock()
 	}
 	gitcfg := strings.ReplaceAll(sp.GitCfg, "{{URL}}", srv.URL)
 	in := t.instantiate(srv.lfsURL(), gitcfg)
@@ -208,21 +294,37 @@ func runSpec(sp *execSpec) vx.Result {
 		if st.Pre != nil {
 			st.Pre(in)
 		}
-		dir := in.local
-		if st.Repo == "clone" {
-			dir = in.clone
+		dir := in.dirOf(st.Repo)
+		args, stdin := st.Args, st.Stdin
+		if st.Dyn != nil {
+			da, ds := st.Dyn(in)
+			args = append(append([]string{}, args...), da...)
+			if ds != nil {
+				stdin = ds
+			}
 		}
-		var res gitx.Res
+		st.Args = args
+		nreq0 := len(srv.snapshot())
+		name, prog := "git-lfs", filepath.Join(in.w.BinDir, "git-lfs")
 		if st.Git {
-			res = in.w.Git(dir, st.Args...)
-		} else {
-			res = in.w.LFS(dir, st.Args...)
+			name, prog = "git", "git"
 		}
-		name := "git-lfs"
-		if st.Git {
-			name = "git"
+		res := in.w.RunIn(dir, stdin, st.Env, prog, args...)
+		stepReqs := srv.snapshot()[nreq0:]
+		for _, site := range sitesOf(st.Git, args, sp.GitCfg) {
+			r.Counters["site|"+site+"|executions"]++
+			for _, q := range stepReqs {
+				r.Counters["site|"+site+"|requests:"+kindOf(q)]++
+			}
 		}
-		cmdlog = append(cmdlog, map[string]interface{}{"cmd": name + " " + strings.Join(st.Args, " "), "repo": st.Repo, "exit": res.Code, "stderr": tail(scrub(res.Err), 500), "stdout": tail(scrub(res.Out), 300)})
+		entry := map[string]interface{}{"cmd": scrub(name + " " + strings.Join(args, " ")), "repo": st.Repo, "exit": res.Code, "stderr": tail(scrub(res.Err), 500), "stdout": tail(scrub(res.Out), 300)}
+		if stdin != nil {
+			entry["stdin"] = tail(scrub(string(stdin)), 300)
+		}
+		if len(st.Env) > 0 {
+			entry["env"] = st.Env
+		}
+		cmdlog = append(cmdlog, entry)
 		if res.TimedOut {
 			r.Inconcl = "command timeout (tool guard)"
 			exits = append(exits, "T")
@@ -278,13 +380,13 @@ func runSpec(sp *execSpec) vx.Result {
 	}
 	kinds := map[string]int{}
 	for _, q := range reqs {
-		k := q.Kind
-		if k == "other" {
-			k = q.Method + "-action"
-		}
+		k := kindOf(q)
 		kinds[k]++
 		r.Counters["requests"]++
 		r.Counters["requests:"+k]++
+	}
+	for lbl, n := range batchSizeLabels(reqs) {
+		r.Counters["batch-object-size|"+sp.PathName+"|"+lbl] += n
 	}
 	var ks []string
 	for k, n := range kinds {
@@ -460,7 +562,9 @@ func rmWorktreeBins(in *inst) {
 
 var ops = []opDef{
 	{"lfs-push", func(b string) []step { return []step{{Repo: "local", Args: []string{"push", "origin", b}}} }, nil, "upload"},
-	{"git-push", func(b string) []step { return []step{{Repo: "local", Git: true, Args: []string{"push", "-q", "origin", b}}} }, nil, "upload"},
+	{"git-push", func(b string) []step {
+		return []step{{Repo: "local", Git: true, Args: []string{"push", "-q", "origin", b}}}
+	}, nil, "upload"},
 	{"lfs-pull", func(b string) []step { return []step{{Repo: "clone", Args: []string{"pull"}}} }, []string{"*"}, "download"},
 	{"smudge-checkout", func(b string) []step {
 		return []step{{Repo: "clone", Git: true, Args: []string{"checkout", "-q", "--", "."}, Pre: rmWorktreeBins}}
@@ -610,11 +714,11 @@ func pathsOf(set string) []string {
 // corruption bases
 
 type corruptBase struct {
-	Name    string
-	Kind    string // response kind to corrupt
-	At      int
-	Spec    func() *execSpec // nominal spec (Cfg.Mut filled in per case)
-	Batch   bool
+	Name  string
+	Kind  string // response kind to corrupt
+	At    int
+	Spec  func() *execSpec // nominal spec (Cfg.Mut filled in per case)
+	Batch bool
 }
 
 func canonicalBatchCfg(t *tmpl, dir string) srvCfg {
@@ -906,6 +1010,9 @@ func buildParts(c *vx.Check) []part {
 		return runSpec(sp)
 	}})
 
+	// ---- rare request paths x extreme object sizes (c18_sizes_verif_test.go)
+	parts = append(parts, sizesPart(c))
+
 	// ---- response corruption
 	bases := corruptBases(th)
 	type cb struct {
@@ -970,7 +1077,10 @@ func buildParts(c *vx.Check) []part {
 func TestVerifC18(t *testing.T) {
 	c := vx.NewCheck("C18", "exploration")
 	c.Rule = "designed scenario set enumerated as full cartesian products per part (names: op x branch name x file set; modes: op x server behaviour x file set x branch; " +
-		"locks: command sequence x path set x page size x cursor style x id style x branch; hash-algo: op x algorithm x transfer) plus, for each canonical valid batch / lock response, " +
+		"locks: command sequence x path set x page size x cursor style x id style x branch; hash-algo: op x algorithm x transfer; " +
+		"sizes: request path (every command form that constructs a transfer queue / lock client: pull, fetch [refs / --all / --recent / --refetch / --dry-run --json / --prune], checkout and clone through filter-process and through the one-shot smudge filter, git lfs smudge [+ lfs.remote.searchall], cat-file --filters, merge-driver, migrate export, prune --verify-remote [--verify-unreachable / --dry-run / --when-unverified=continue / configured], lfs clone, push [refs / --all / --stdin / --object-id / --dry-run / lfs.allowincompletepush], pre-push by hand, git push, hooks) " +
+		"x size class of the hand-written pointers committed in the history (0 with a non-empty oid, 1, 2^31, 2^53+1, 2^63-1, all five; thorough: seven further boundary values) x server variant x client transfer configuration) " +
+		"plus, for each canonical valid batch / lock response, " +
 		"every single-field corruption of its JSON tree (every node x {remove, null, each wrong type, empty, negative / beyond-int32 / beyond-int64 / fractional number} + targeted batch corruptions). " +
 		"Each execution runs the real git-lfs binary against lib/fakelfs; EVERY recorded request is validated (evaluations = requests validated). " +
 		"distinct_nontrivial = distinct cases in which git-lfs emitted at least one request + distinct request shapes (kind, method, JSON member structure, query keys, marker headers) observed + distinct corruption classes applied"
@@ -980,6 +1090,8 @@ func TestVerifC18(t *testing.T) {
 		"ref names are the current branch without upstream configuration, so the documented server ref is refs/heads/<branch>",
 		"file names are valid UTF-8 (JSON cannot carry other byte strings)",
 		"an action whose href is not an absolute http URL can only be conformingly 'used' by not using it",
+		"part sizes: 'the caller asked about' an object under the size recorded in a pointer of the history naming its oid or under the length of the local object file of that oid; phantom objects (oids of no existing content) stand for objects of 2^31..2^63-1 bytes, which cannot be materialised here: no request with a body of that length is ever observed",
+		"part sizes: the call-site list is found by a textual scan of commands/*.go and lfs/*.go of the tree under test; which call sites a command line drives is read off the command line (table sitesOf), not observed inside git-lfs",
 	}
 	if _, err := loadSchemas(); err != nil {
 		fmt.Println("TOOL-ERROR", err)
@@ -1018,11 +1130,12 @@ func TestVerifC18(t *testing.T) {
 		os.Exit(2)
 	}
 
-	deadline := c.DeadlineAfter(160*time.Second, 22*time.Minute)
+	deadline := c.DeadlineAfter(185*time.Second, 22*time.Minute)
 	var vparts []vx.Part
 	clause := map[string]int64{}
 	reqKinds := map[string]int64{}
 	shapes := map[string]bool{}
+	siteCounters := map[string]int64{}
 	for _, p := range parts {
 		if only != "" && !strings.HasPrefix(p.name, only) {
 			continue
@@ -1037,6 +1150,9 @@ func TestVerifC18(t *testing.T) {
 			if strings.HasPrefix(k, "requests:") {
 				reqKinds[strings.TrimPrefix(k, "requests:")] += n
 			}
+			if strings.HasPrefix(k, "site|") || strings.HasPrefix(k, "batch-object-size|") {
+				siteCounters[k] += n
+			}
 		}
 		for k := range st.NonTrivial {
 			if strings.HasPrefix(k, "shape:") {
@@ -1050,6 +1166,15 @@ func TestVerifC18(t *testing.T) {
 	extra := map[string]interface{}{"oracle_clause_evaluations": clause, "requests_validated_by_kind": reqKinds, "distinct_request_shapes": keys(shapes)}
 	if len(basesSkipped) > 0 {
 		extra["corruption_bases_skipped"] = basesSkipped
+	}
+	sitecov, undriven := siteCoverage(siteCounters)
+	extra["call_site_coverage"] = sitecov
+	extra["object_sizes_named_in_batch_requests"] = sizeCoverage(siteCounters)
+	if only == "" {
+		extra["call_sites_not_driven"] = append([]string{}, undriven...)
+		for _, u := range undriven {
+			fmt.Println("NOTE call site constructing a transfer queue / lock client that no scenario drives:", u)
+		}
 	}
 	rc := c.Finish(vparts, extra)
 	if len(basesSkipped) > 0 {
